@@ -285,6 +285,7 @@ def judgeJoin (e : Env) (sw : SWorld) (sess : Option (WsConn × Option (List Cha
       match attached with
       | some k => if mayPull e sw (some dc.user) k then .ok else .unsound
       | none => .ok
-    else if dc.user = conn.user && dc.path = conn.path then .incomplete else .ok
+    else if dc.user = conn.user && dc.path = conn.path && mayPull e sw (some conn.user) (e.canon conn.path) then .incomplete
+    else .ok
 
 end IpcHub.Monitor
